@@ -86,8 +86,40 @@ func decomposePath(v ssa.Value, recv ssa.Value, depth int) pathParts {
 			if k, ok := x.Call.Args[0].(*ssa.Const); ok && k.Value != nil {
 				out.consts = append(out.consts, constant.StringVal(k.Value))
 			}
-			for _, e := range varargElems(x.Call.Args[1]) {
-				out = mergeParts(out, decomposePath(e, recv, depth+1))
+			var verbs []byte
+			if len(out.consts) == 1 {
+				f := out.consts[0]
+				for i := 0; i+1 < len(f); i++ {
+					if f[i] == '%' {
+						if f[i+1] != '%' {
+							verbs = append(verbs, f[i+1])
+						}
+						i++
+					}
+				}
+			}
+			for k, e := range varargElems(x.Call.Args[1]) {
+				part := decomposePath(e, recv, depth+1)
+				// the arguments stand where the format expects them: the parent path first, and each under a verb of
+				// its own type ("%s.%d" given (i, path) prints %!s(int=0).%!d(string=…))
+				if part.hasPath && k != 0 {
+					out.ok = false
+				}
+				if k < len(verbs) {
+					t := e.Type()
+					if mi, isMI := e.(*ssa.MakeInterface); isMI {
+						t = mi.X.Type()
+					}
+					if b, isB := t.Underlying().(*types.Basic); isB {
+						switch {
+						case b.Info()&types.IsString != 0 && verbs[k] != 's' && verbs[k] != 'v' && verbs[k] != 'q':
+							out.ok = false
+						case b.Info()&types.IsInteger != 0 && verbs[k] != 'd' && verbs[k] != 'v':
+							out.ok = false
+						}
+					}
+				}
+				out = mergeParts(out, part)
 			}
 			return out
 		}
@@ -253,6 +285,9 @@ func KConsistent(p *core.Prog, r *core.Report) {
 			}
 			isParamSite := how == "param"
 			switch {
+			case !finalParts.ok:
+				r.Bad(rule, site+":path", p.Pos(ctor.Pos()), "the child's path is formatted with its arguments in the wrong places (the parent path is not the first argument, or an argument stands under a verb of another type): the path printed is not <parent path>.<key>")
+				return
 			case !finalParts.hasPath || len(keys) != 1:
 				r.Bad(rule, site+":path", p.Pos(ctor.Pos()), fmt.Sprintf("the child's path is not <parent path> extended by exactly one member key/index (found %d variable parts, parent path used: %v)", len(keys), finalParts.hasPath))
 				return
